@@ -116,7 +116,7 @@ fn main() {
                 "sha2 -> /verif/symfrost-tr/stubs/sha2: SHA-256 uninterpreted over its parsed input",
                 "caller RNG = SymRng",
             ],
-            outside: &["libsecp256k1 and the real secp256k1/SHA-256 arithmetic (replaced by the BIP-340/BIP-341 transcription in scen-tr)", "byte-level equality with BIP-340 test vectors", "n > 4"],
+            outside: &["libsecp256k1 and the real secp256k1/SHA-256 arithmetic (replaced by the BIP-340/BIP-341 transcription in scen-tr)", "byte-level conformance beyond the pinned vectors (repository TR vector, BIP-340 vector 0, BIP-341 wallet vector 1: symfrost pin-tr)", "n > 4"],
             assumptions: &["stub contracts: odd(-P) = !odd(P) for P != 0; x(P) = x(-P); lift_x(x(P)) is the even-y representative", "q = secp256k1 group order (prime)"],
             engine: "E1 symfrost-tr: the real frost-secp256k1-tr crate compiled against stub k256/sha2 over symbolic terms; parities fork; z3 (QF_NIA mod n) decides",
         },
